@@ -385,12 +385,11 @@ def run_shard(ctx):
 
     bases = base_cases()
     done_exhaustive = True
-    # ---- exhaustive part: base case b, faults partitioned over shards
+    # ---- exhaustive part: every base case, every fault point. The work list is ordered so that the first fault of every kind of every base
+    # comes first (a slow machine then still sees every kind) and is dealt out to the shards round-robin.
+    work, head = [], []
     for bi, case in enumerate(bases):
-        if not ctx.more():
-            done_exhaustive = False
-            break
-        base_tr = race.run_race(dict(case, wall_deadline=_t.monotonic() + 30), ctx.scratch, instrument=c01.instrument)
+        base_tr = race.run_race(dict(case, wall_deadline=_t.monotonic() + 60), ctx.scratch, instrument=c01.instrument)
         c01.finish_trace(base_tr)
         ctx.clause("baseline-succeeds")
         if base_tr.exit_status != "SUCCESSFUL" or base_tr.stalled:
@@ -398,13 +397,24 @@ def run_shard(ctx):
             continue
         faults = points_for(case, base_tr, ctx.case_rng(f"base{bi}"), exhaustive=True)
         ctx.feature(f"base{bi}-fault-points", len(faults) if ctx.shard == 0 else 0)
-        for fi, fault in enumerate(faults):
-            if fi % ctx.nshards != ctx.shard:
-                continue
-            if _t.monotonic() > ctx.deadline + 20:
-                done_exhaustive = False
-                break
-            one_fault(ctx, case, fault, f"base{bi}", base_steps=base_tr.kernel.steps)
+        seen_kinds = set()
+        for fault in faults:
+            item = (bi, case, fault, base_tr.kernel.steps)
+            key = (fault["kind"], bool(fault.get("profiling")))
+            if key not in seen_kinds:
+                seen_kinds.add(key)
+                head.append(item)
+            else:
+                work.append(item)
+    # all profiling firsts after the plain firsts, so that the very first items cover the kinds
+    head.sort(key=lambda it: (bool(it[2].get("profiling")), it[0]))
+    for wi, (bi, case, fault, steps) in enumerate(head + work):
+        if wi % ctx.nshards != ctx.shard:
+            continue
+        if _t.monotonic() > ctx.deadline + 20:
+            done_exhaustive = False
+            break
+        one_fault(ctx, case, fault, f"base{bi}", base_steps=steps)
     ctx.exhaustive["base-schedules: every request index x 7 request faults, every 3rd message index x {worker-dies,cancel}, every 3rd store call"] = done_exhaustive
     # ---- sampled part: generated cases
     i = 0
